@@ -97,12 +97,36 @@ def _tasks(chain, row, all_masks: bool):
   return tasks
 
 
+def _kinds_of(chain):
+  return chain[1:] if chain[0].startswith('#') else chain[0::2]
+
+
+def _work_hist(args):
+  """Scope histories: (chain, src, row, mask, histories) -> divergences."""
+  from pgverif import perm   # pylint: disable=import-outside-toplevel
+  warnings.simplefilter('ignore')
+  out = []
+  for chain, src, row, mask, hists in args:
+    ref = perm.plain_run(src)
+    res = []
+    for h, eff in hists:
+      want_mask = {0: None, 1: mask, 2: 255, 3: 0}[eff]
+      code = 0 if want_mask is None else row[want_mask]
+      got = perm.run_history(src, mask, h)
+      d = perm.compare(ref, got, code)
+      if d is None and got.get('effective') != want_mask:
+        d = ('narrowing', 'get_permission() after the history', want_mask, got.get('effective'))
+      res.append((h, eff, code, got['outcome'], d))
+    out.append((chain, src, mask, res))
+  return out
+
+
 def _signature(kinds_tab, chain, mask, mode, d):
   clause, what = d[0], d[1]
   sig = {'clause': clause, 'mode': 'param' if mode == 'param' else 'scoped'}
   if clause == 'containment':
     eff = mask
-    missing = sorted({k for k in chain[0::2]
+    missing = sorted({k for k in _kinds_of(chain)
                       if kinds_tab[k]['must'] != 'none' and not (eff & _FLAG_BIT[kinds_tab[k]['must']])})
     sig['kind'] = '+'.join(missing)
     sig['empty_permission_argument'] = (mode == 'param' and mask == 0)
@@ -167,6 +191,13 @@ def run(chk):
     generated_kinds |= nodes
     used_slots |= {(chain[i - 1], chain[i]) for i in range(1, len(chain), 2)}
     items.append((chain, src, rec['v']))
+  for rec in data['errprogs']:
+    src = perm.ERR_PROGRAMS[rec['name']]
+    present = perm.ast_kinds(src)
+    chk.require(set(rec['kinds']) <= present and not ((present & gated) - set(rec['kinds'])),
+                f'error program {rec["name"]}: kinds {sorted(present & gated)} vs spec {rec["kinds"]}')
+    items.append((['#' + rec['name']] + sorted(rec['kinds']), src, rec['v']))
+  chk.require(set(perm.ERR_PROGRAMS) == {r['name'] for r in data['errprogs']}, 'error programs differ from Perm.tla')
   not_gen = {k for k, rec in kinds_tab.items() if rec['ctx'] != 'nested' and k != 'Expr'} - generated_kinds
   chk.require(not not_gen, f'kinds never generated: {sorted(not_gen)}')
   all_slots = {(k, s) for k, rec in kinds_tab.items() for s in rec['slots'] if k != 'Expr'}
@@ -177,13 +208,45 @@ def run(chk):
   # 3. the cases
   work = []
   for i, (chain, src, row) in enumerate(items):
-    all_masks = len(chain) == 1 or (thorough and len(chain) <= 3)
+    all_masks = len(chain) == 1 or chain[0].startswith('#') or (thorough and len(chain) <= 3)
     work.append((chain, src, row, _tasks(chain, row, all_masks), i % 3 == 0))
   nproc = min(8, max(2, (os.cpu_count() or 4) // 2))
   size = max(1, len(work) // (nproc * 6))
   chunks = [work[i:i + size] for i in range(0, len(work), size)]
   with cf.ProcessPoolExecutor(max_workers=nproc, mp_context=mp.get_context('fork')) as ex:
     results = [x for chunk in ex.map(_work, chunks) for x in chunk]
+
+  # 3b. scope histories (enter / leave to depth 3, then evaluate): the outermost OPEN scope decides, also after
+  # inner scopes have been entered and left again
+  hists = [(x['h'], x['eff']) for x in data['histories']]
+  cand = [(c, s_, r_) for c, s_, r_ in items if len(c) <= 3 and _masks_of(r_)[2] and not c[0].startswith('#')]
+  step = max(1, len(cand) // (160 if thorough else 36))
+  hwork = []
+  for c, s_, r_ in cand[(chk.seed % step)::step] + [it for it in items if it[0][0].startswith('#')]:
+    needed = _bits(_masks_of(r_)[2])
+    hwork.append((c, s_, r_, 255 ^ needed[0], hists))
+  hsize = max(1, len(hwork) // (nproc * 3))
+  hchunks = [hwork[i:i + hsize] for i in range(0, len(hwork), hsize)]
+  with cf.ProcessPoolExecutor(max_workers=nproc, mp_context=mp.get_context('fork')) as ex:
+    hresults = [x for chunk in ex.map(_work_hist, hchunks) for x in chunk]
+  for chain, src, mask, res in hresults:
+    for h, eff, code, outcome, d in res:
+      chk.evaluations += 1
+      chk.count('scope_history_cases')
+      if 0 in h and eff != 0:
+        chk.count('scope_history_evaluated_after_an_inner_exit')
+      chk.distinct_case((chain, mask, tuple(h)))
+      if d is not None:
+        sig = _signature(kinds_tab, chain, {0: 255, 1: mask, 2: 255, 3: 0}[eff], 'history', d)
+        sig['mode'] = 'history'
+        chk.violation(sig, {'chain': chain, 'source': src, 'mask': mask, 'permission': _perm_str(mask),
+                            'history': h, 'history_legend': '1 enter P, 2 enter ALL, 3 enter NOTHING, 0 leave',
+                            'effective_expected': eff, 'mode': 'history', 'api': 'evaluate',
+                            'verdict': ('ALLOW', 'REJECT', 'EITHER')[code], 'outcome': outcome,
+                            'what': d[1], 'expected': d[2], 'observed': d[3]})
+  chk.notes['scope_histories'] = {'histories': len(hists), 'programs': len(hwork)}
+  chk.require(chk.counters.get('scope_history_evaluated_after_an_inner_exit', 0) > 100,
+              'vacuous: no evaluation after an inner scope was left')
 
   n_err = n_rej = n_ran = 0
   for chain, src, ref_error, res, extra in results:
@@ -233,7 +296,10 @@ def replay(chk, path):
   src, mask, mode, api = d['source'], d['mask'], d['mode'], d.get('api', 'evaluate')
   code = {'ALLOW': 0, 'REJECT': 1, 'EITHER': 2}[d['verdict']]
   ref = perm.plain_run(src)
-  got = perm.pg_run(src, mask, mode, api)
+  if mode == 'history':
+    got = perm.run_history(src, mask, d['history'])
+  else:
+    got = perm.pg_run(src, mask, mode, api)
   div = perm.compare(ref, got, code)
   chk.traces += 1
   chk.evaluations += 1
